@@ -32,9 +32,9 @@ CHECKS = {
     "C10": ("exploration", "differential monitor: compiled table vs reference PSL algorithm over the shipped .dat, all rules",
             "Every rule of the shipped list (exhaustive) in several extensions plus arbitrary strings is looked up in the compiled table and compared with the publicsuffix.org algorithm run over the .dat file; structural clauses for all strings; one provider object shared by 8-16 threads and a second Table implementation used in the same process are compared with fresh-object / list-algorithm answers.", "§4 C10"),
     "C11": ("exploration", "complete enumeration of the discoverability product with instrumented store",
-            "The full product capability x residentKey x requireResidentKey x credProps x CTAP rk is executed; rk seen by the store, stored user handle, credProps and later assertion user handle are compared with tables written from the specs.", "§4 C11"),
+            "The full product capability x residentKey x requireResidentKey x credProps x CTAP rk is executed (plus U2F registrations under each capability); rk seen by the store, stored user handle, credProps and later assertion user handle are compared with tables written from the specs.", "§4 C11"),
     "C12": ("exploration", "own encoder/decoder as oracle; truncation and single-byte corruption sweeps",
-            "to_vec is compared byte-for-byte with an own encoder, from_slice with an own decoder's accept/reject classes, over generated values and all truncations / corruptions of valid encodings.", "§4 C12"),
+            "to_vec is compared byte-for-byte with an own encoder, from_slice with an own decoder's accept/reject classes, over generated values and all truncations / corruptions of valid encodings; the serde (CBOR) encoding of every value is a byte string of exactly those bytes and reads back equal, in the default build and in the build with serialize_bytes_as_base64_string.", "§4 C12"),
     "C13": ("exploration", "generic-CBOR-parser oracle over generated CTAP2 messages; key injection; all 256 status bytes",
             "Serialisations are parsed with ciborium Value and compared with key tables written from the CTAP spec; round trips, unknown/duplicate/missing keys, defaults, and the complete status-byte space (in isolation and end-to-end through the client).", "§4 C13"),
     "C14": ("exploration", "presentation-variant differential monitor over generated WebAuthn JSON",
